@@ -37,6 +37,19 @@ def gen(c):
                       'inc.init scheme=%s obj=1 re=1 k=- n=- knull=1 nnull=1' % sc, 'inc.start scheme=%s obj=1 ad=-' % sc, 'inc.encfin scheme=%s obj=1' % sc,
                       'inc.free scheme=%s obj=1' % sc]
             p.case(lines, cost=2.0); c.distinct([(sc, 'session', k)])
+        # receiving sessions: a genuine packet, a rejected one (wrong tag), an abandoned one, then further packets - starting a
+        # packet advances the stored nonce by one whatever becomes of the packet
+        for k in (16, 8, 0, 3):
+            n = carry_nonce(rng, k); kk = pattern(rng, klen)
+            lines = ['inc.init scheme=%s obj=1 k=%s n=%s' % (sc, hx(kk), hx(n)), 'inc.init scheme=%s obj=2 k=%s n=%s' % (sc, hx(kk), hx(n))]
+            for pkt, fate in enumerate(('ok', 'badtag', 'ok', 'abandon', 'ok')):
+                ad = pattern(rng, rng.choice([0, 3])); m = pattern(rng, rng.choice([1, 5, rate + 3]))
+                lines += ['inc.start scheme=%s obj=1 ad=%s' % (sc, hx(ad)), 'inc.enc scheme=%s obj=1 in=%s save=ct%d' % (sc, hx(m), pkt), 'inc.encfin scheme=%s obj=1 save=tag%d' % (sc, pkt),
+                          'inc.start scheme=%s obj=2 ad=%s' % (sc, hx(ad)), 'inc.dec scheme=%s obj=2 in=@ct%d' % (sc, pkt)]
+                if fate == 'ok': lines.append('inc.decfin scheme=%s obj=2 tag=@tag%d' % (sc, pkt))
+                elif fate == 'badtag': lines.append('inc.decfin scheme=%s obj=2 tag=%s' % (sc, hx(pattern(rng, 16, 'rand'))))
+            lines += ['inc.free scheme=%s obj=1' % sc, 'inc.free scheme=%s obj=2' % sc]
+            p.case(lines, cost=3.0); c.distinct([(sc, 'receive', k)])
     # C++ objects: packet i under N+i; successful / failed decrypt; set_nonce lengths 0..20; set_counter
     for cls, klen in CLASSES:
         slow = cls in ('isap128', 'isap80pq')
